@@ -180,6 +180,11 @@ fn out_json(r: &Res<(Vec<u64>, usize)>) -> String {
 #[allow(clippy::too_many_arguments)]
 fn raw_case(out: &mut Out, path: &Path, bl: Option<usize>, h0: &[u64], h1: &[u64], ops: &[Op], how: u64, extra: &[Op]) {
     let _ = fs::remove_file(path);
+    // "If the file already exists, it will be overwritten": every third case starts from a longer stale file
+    if (ops.len() + h0.len() + how as usize) % 3 == 0 {
+        let _ = fs::write(path, vec![0xA5u8; 4096 + 8 * ops.len()]);
+        out.stat("raw.preexisting_file");
+    }
     let r = catch(|| {
         let mut hdr0 = h0.to_vec();
         let mut w = match bl {
@@ -247,6 +252,10 @@ fn raw_case(out: &mut Out, path: &Path, bl: Option<usize>, h0: &[u64], h1: &[u64
 #[allow(clippy::too_many_arguments)]
 fn int_case(out: &mut Out, path: &Path, bl: Option<usize>, width: usize, xs: &[u64], how: u64, extra: &[u64], split: usize) {
     let _ = fs::remove_file(path);
+    if (xs.len() + width + how as usize) % 3 == 0 {
+        let _ = fs::write(path, vec![0x5Au8; 4096 + 8 * xs.len()]);
+        out.stat("int.preexisting_file");
+    }
     let r = catch(|| {
         let mut w = match bl {
             Some(n) => IntVectorWriter::with_buf_len(path, width, n).unwrap(),
